@@ -215,6 +215,10 @@ type c15cfg struct {
 	// Req: once the node is ready a block is requested from the peer (RequestBlock), so that block
 	// messages are streamed through the block handler instead of being skipped
 	Req bool `json:"req,omitempty"`
+	// Long > 0: the repository holds a chain of that many headers (more than MaxBranchDepth) and the
+	// proof-of-work check is off, standing in for a peer with hash power: its headers pass the work
+	// check and reach the branch-depth, duplicate and fork logic of ProcessHeader
+	Long int `json:"long,omitempty"`
 }
 
 type c15msg struct {
@@ -237,15 +241,29 @@ func runC15(c *core.Ctx) {
 	} else {
 		cfg = c15cfg{K: "config", Tx: t.Chance(1, 2), Stage: t.Draw(3), N: 1 + t.Draw(4)}
 		cfg.Req = cfg.Stage == 2 && t.Chance(1, 2)
+		if cfg.Stage == 2 && !cfg.Req && t.Chance(1, 3) {
+			cfg.Long = 146 + t.Draw(60)
+			cfg.N = 2 + t.Draw(5)
+		}
 	}
 	c.Record(cfg)
 	withTx, stage := cfg.Tx, cfg.Stage
-	w := nw.New(c, nw.Options{TxManager: withTx, ProductionRepo: true, NoNode: c.Dry})
+	w := nw.New(c, nw.Options{TxManager: withTx, ProductionRepo: cfg.Long == 0, NoNode: c.Dry})
+	var chain []bitcoin.Hash32 // best chain by height before the hostile stream (Long runs)
+	if cfg.Long > 0 {
+		chain = c15BuildChain(w, cfg.Long)
+	}
 	// All hostile messages are generated up front, before any delivery decision, so that a dry run
 	// (script generation without the system) consumes the tape exactly like the real run.
 	if c.Script == nil {
 		for i := 0; i < cfg.N; i++ {
-			b, name := hostileBytes(c, w, i+1, cfg.Req)
+			var b []byte
+			var name string
+			if cfg.Long > 0 && t.Chance(3, 4) {
+				b, name = hostileForkHeaders(c, w, chain, i+1)
+			} else {
+				b, name = hostileBytes(c, w, i+1, cfg.Req)
+			}
 			scripted = append(scripted, c15msg{K: "send", Name: name, Hex: hex.EncodeToString(b)})
 		}
 	}
@@ -269,6 +287,9 @@ func runC15(c *core.Ctx) {
 	w.NoDelay = false
 	c.Event("config txManager=%v stage=%s", withTx, stages[stage])
 	c.Probe("stage:" + stages[stage])
+	if cfg.Long > 0 {
+		c.Probe("long-chain")
+	}
 	if stage == 2 && !p.Node.IsReady() {
 		c.Fail("c15.setup", "not-ready", "the node did not verify against the default scripted peer")
 	}
@@ -322,6 +343,9 @@ func runC15(c *core.Ctx) {
 	if _, err := w.Repo.Hash(w.Ctx, w.Repo.Height()); err != nil {
 		c.Fail("c15.repository-unaffected", "tip-unreadable", "Hash(tip) failed after the hostile stream: %v", err)
 	}
+	if cfg.Long > 0 {
+		c15RepositoryOracle(c, w, chain)
+	}
 	q := w.AddNode(false)
 	w.NoDelay = true
 	w.Pump()
@@ -336,7 +360,139 @@ func runC15(c *core.Ctx) {
 	w.Shutdown()
 }
 
+// c15BuildChain extends the fresh repository (difficulty off) by n deterministic headers and returns the
+// best chain's hashes by height.
+func c15BuildChain(w *nw.World, n int) []bitcoin.Hash32 {
+	tip, _ := w.Repo.Header(w.Ctx, w.Repo.Height())
+	chain := []bitcoin.Hash32{*tip.BlockHash()}
+	prev, ts := *tip.BlockHash(), tip.Timestamp
+	for i := 1; i <= n; i++ {
+		ts += 600
+		h := &wire.BlockHeader{Version: 1, PrevBlock: prev, MerkleRoot: model.DoubleSHA([]byte(fmt.Sprintf("c15 chain %d", i))),
+			Timestamp: ts, Bits: 0x1d00ffff, Nonce: uint32(i)}
+		if err := w.Repo.ProcessHeader(w.Ctx, h); err != nil {
+			panic(fmt.Sprintf("c15 chain header %d refused: %v", i, err))
+		}
+		prev = *h.BlockHash()
+		chain = append(chain, prev)
+	}
+	return chain
+}
+
+// hostileForkHeaders: a well-formed headers message whose 1-3 headers hang off known headers at chosen
+// depths below the tip (around MaxBranchDepth in particular), repeat a known header, or hang off each
+// other; with the work check off (Long runs) they reach everything in ProcessHeader behind it.
+func hostileForkHeaders(c *core.Ctx, w *nw.World, chain []bitcoin.Hash32, k int) ([]byte, string) {
+	t := c.T
+	tipHeight := len(chain) - 1
+	depths := []int{0, 1, 2, 100, 143, 144, 145, 146, tipHeight - 1, tipHeight}
+	var hs []*wire.BlockHeader
+	name := "headers-fork"
+	n := 1 + t.Draw(3)
+	for i := 0; i < n; i++ {
+		d := depths[t.Draw(len(depths))]
+		if t.Chance(1, 4) {
+			d = t.Draw(tipHeight + 1)
+		}
+		if d > tipHeight {
+			d = tipHeight
+		}
+		parentHeight := tipHeight - d
+		parent, _ := w.Repo.Header(w.Ctx, parentHeight)
+		h := &wire.BlockHeader{Version: 1, PrevBlock: chain[parentHeight], MerkleRoot: model.DoubleSHA([]byte(fmt.Sprintf("c15 fork %d %d", k, i))),
+			Timestamp: parent.Timestamp + 600, Bits: 0x1d00ffff, Nonce: uint32(1000*k + i)}
+		switch t.Draw(6) {
+		case 0: // a header the repository already has
+			if parentHeight < tipHeight {
+				h, _ = w.Repo.Header(w.Ctx, parentHeight+1)
+				name += fmt.Sprintf(":known@%d", parentHeight+1)
+				hs = append(hs, h)
+				continue
+			}
+		case 1: // hangs off the previous header of this message
+			if len(hs) > 0 {
+				h.PrevBlock = *hs[len(hs)-1].BlockHash()
+				h.Timestamp = hs[len(hs)-1].Timestamp + 600
+				name += ":child"
+				hs = append(hs, h)
+				continue
+			}
+		}
+		name += fmt.Sprintf(":depth-%d", d)
+		hs = append(hs, h)
+	}
+	return nw.Frame(wire.CmdHeaders, nw.HeadersPayload(hs)), name
+}
+
+// c15RepositoryOracle (Long runs): "the repositories are unaffected" by what the repository refused.
+// The best chain up to the lowest fork point of an accepted header is what it was, and every header the repository refused (and
+// did not know before) is unknown to every lookup afterwards; every hash it reports a height for is
+// backed by a header with that hash.
+func c15RepositoryOracle(c *core.Ctx, w *nw.World, chain []bitcoin.Hash32) {
+	// headers the repository accepted may legitimately reorganise the chain above their fork point
+	heightOf := map[bitcoin.Hash32]int{}
+	for h := range chain {
+		heightOf[chain[h]] = h
+	}
+	accepted := map[bitcoin.Hash32]bool{}
+	unchangedUpTo := len(chain) - 1
+	for _, call := range w.Rec.Calls() {
+		if call.Name == "headers.ProcessHeader.result" && call.Err == nil {
+			accepted[*call.Hash] = true
+			if ph, ok := heightOf[*call.Prev]; ok && !call.KnownBefore && ph < unchangedUpTo {
+				unchangedUpTo = ph
+			}
+		}
+	}
+	for h := 0; h <= unchangedUpTo; h++ {
+		got, err := w.Repo.Hash(w.Ctx, h)
+		if err != nil || got == nil || !got.Equal(&chain[h]) {
+			c.Fail("c15.repository-unaffected", "best-chain-changed", "Hash(%d) = %v, %v after the hostile stream, was %s, and no accepted header forks off at or below that height", h, got, err, chain[h])
+			return
+		}
+	}
+	refused := 0
+	for _, call := range w.Rec.Calls() {
+		if call.Name != "headers.ProcessHeader.result" {
+			continue
+		}
+		x := *call.Hash
+		if call.Err != nil && !call.KnownBefore && !accepted[x] {
+			refused++
+			if ht := w.Repo.HashHeight(x); ht >= 0 {
+				c.Fail("c15.repository-unaffected", "refused-header-has-height", "header %s was refused (%v) but HashHeight reports %d afterwards", x, call.Err, ht)
+				return
+			}
+			if ht, longest, err := w.Repo.CheckHeader(w.Ctx, x); err == nil {
+				c.Fail("c15.repository-unaffected", "refused-header-known", "header %s was refused (%v) but CheckHeader reports height %d, best chain %v", x, call.Err, ht, longest)
+				return
+			}
+			if hd, ht, _, err := w.Repo.GetHeader(w.Ctx, x); err == nil && hd != nil {
+				c.Fail("c15.repository-unaffected", "refused-header-returned", "header %s was refused (%v) but GetHeader returns a header (%s at %d)", x, call.Err, hd.BlockHash(), ht)
+				return
+			}
+			continue
+		}
+		if ht := w.Repo.HashHeight(x); ht >= 0 {
+			hd, _, _, err := w.Repo.GetHeader(w.Ctx, x)
+			if err != nil || hd == nil || !hd.BlockHash().Equal(&x) {
+				c.Fail("c15.repository-unaffected", "height-without-header", "HashHeight(%s) = %d but GetHeader returns %v, %v", x, ht, hd, err)
+				return
+			}
+		}
+	}
+	if refused > 0 {
+		c.Probe("header-refused-by-repository")
+	}
+	if len(accepted) > 0 {
+		c.Probe("header-accepted-by-repository")
+	}
+}
+
 func kindOnly(s string) string {
+	if len(s) > 12 && s[:12] == "headers-fork" {
+		return "headers-fork"
+	}
 	for i := 0; i < len(s); i++ {
 		if s[i] == '(' {
 			return s[:i]
@@ -351,12 +507,12 @@ func kindOnly(s string) string {
 func init() {
 	core.Register(&core.Property{
 		ID: "C15", Engine: "G", Level: "exploration", Bubble: true,
-		Rule: "each run (in an isolated worker process whose death is attributed to the run it announced): a real BitcoinNode before the handshake, during verification or ready receives 1-4 tape-generated hostile byte strings (noise, right magic + noise, bad checksum, declared length too long/short, counts far beyond the payload, extended header with lengths 2^48..2^64-1, headers with every class of bits exponent/mantissa and timestamps, hostile tx encodings, truncation, garbage command bytes, flipped byte in valid messages) fragmented by the tape, in half of the ready-stage runs a block is requested from the peer first and the hostile strings include block messages with the requested header and a hostile transaction stream (undecodable tx, cut mid-tx, fewer/more txs than announced, random bytes); then the peer closes; the process must survive, Run must return within 5 simulated minutes, the header repository must be intact and a second well-behaved connection must verify and answer a ping; production header repository configuration (difficulty and split protection on); non-trivial = every run; distinct = distinct hash of the canonical event log",
+		Rule: "each run (in an isolated worker process whose death is attributed to the run it announced): a real BitcoinNode before the handshake, during verification or ready receives 1-4 tape-generated hostile byte strings (noise, right magic + noise, bad checksum, declared length too long/short, counts far beyond the payload, extended header with lengths 2^48..2^64-1, headers with every class of bits exponent/mantissa and timestamps, hostile tx encodings, truncation, garbage command bytes, flipped byte in valid messages) fragmented by the tape, in half of the ready-stage runs a block is requested from the peer first and the hostile strings include block messages with the requested header and a hostile transaction stream (undecodable tx, cut mid-tx, fewer/more txs than announced, random bytes); then the peer closes; the process must survive, Run must return within 5 simulated minutes, the header repository must be intact and a second well-behaved connection must verify and answer a ping; production header repository configuration (difficulty and split protection on); in a third of the ready-stage runs without a block request the repository instead holds 146-205 headers with the work check off (a peer with hash power) and 2-6 hostile strings are mostly well-formed headers messages forking off at depths 0..tip (143-146 in particular), repeating known headers or chaining: afterwards the best chain up to the lowest fork point of an accepted header is unchanged, every header the repository refused is unknown to HashHeight/CheckHeader/GetHeader and every reported height is backed by a header with that hash; non-trivial = every run; distinct = distinct hash of the canonical event log",
 		Real: nodeReal, Stub: nodeStub,
 		Assumptions: []string{"generated declared lengths are either small or at least 2^48; desynchronised streams can still produce mid-size ones, so workers run under RLIMIT_AS 3 GiB: such an allocation fails at once inside the dependency (known findings KF19-KF21, KF31) instead of exhausting this machine",
 			"a worker process that dies is re-run alone from the regenerated PRNG stream of that run to confirm and minimise the crash"},
-		FaultKinds:   []string{"fragmentation", "delivery-delay", "hostile:random-bytes", "hostile:magic+random", "hostile:bad-checksum", "hostile:length-too-long", "hostile:length-too-short", "hostile:count-huge", "hostile:extmsg-length-absurd", "hostile:headers-bits", "hostile:tx-input-count-huge", "hostile:tx-script-length-beyond-payload", "hostile:truncated", "hostile:block-tx-count-huge", "hostile:command-garbage", "hostile:version-mangled", "hostile:inv-type-garbage", "hostile:flipped-byte", "hostile:requested-block:tx-input-count-huge", "hostile:requested-block:tx-script-length-beyond-payload", "hostile:requested-block:cut-mid-tx", "hostile:requested-block:fewer-txs-than-announced", "hostile:requested-block:random-tx-bytes"},
-		ProbeNames:   []string{"stage:before-handshake", "stage:during-verification", "stage:ready", "run-returned", "second-connection-ok", "block-requested", "requested-block-streamed-to-handler"},
+		FaultKinds:   []string{"fragmentation", "delivery-delay", "hostile:random-bytes", "hostile:magic+random", "hostile:bad-checksum", "hostile:length-too-long", "hostile:length-too-short", "hostile:count-huge", "hostile:extmsg-length-absurd", "hostile:headers-bits", "hostile:tx-input-count-huge", "hostile:tx-script-length-beyond-payload", "hostile:truncated", "hostile:block-tx-count-huge", "hostile:command-garbage", "hostile:version-mangled", "hostile:inv-type-garbage", "hostile:flipped-byte", "hostile:requested-block:tx-input-count-huge", "hostile:requested-block:tx-script-length-beyond-payload", "hostile:requested-block:cut-mid-tx", "hostile:requested-block:fewer-txs-than-announced", "hostile:requested-block:random-tx-bytes", "hostile:headers-fork"},
+		ProbeNames:   []string{"stage:before-handshake", "stage:during-verification", "stage:ready", "run-returned", "second-connection-ok", "block-requested", "requested-block-streamed-to-handler", "long-chain", "header-refused-by-repository", "header-accepted-by-repository"},
 		Run:          runC15,
 		QuickSeconds: 20, ThoroughSeconds: 600, MinRuns: 300, BatchSize: 25, RunTimeoutSeconds: 180, DryScript: true, MemLimitMB: 3072,
 	})
